@@ -322,6 +322,18 @@ func (e *endpointManager) checkStatus() {
 
 func (e *endpointManager) addAliveEp(ep endpoint.Endpoint) {
 	e.epLock.Lock()
+	// the registry may have dropped the endpoint while its probe was in flight
+	listed := false
+	for _, epf := range e.activeEpf {
+		if endpoint.Tars2endpoint(epf).Key == ep.Key {
+			listed = true
+			break
+		}
+	}
+	if !listed {
+		e.epLock.Unlock()
+		return
+	}
 	sortedEps := e.activeEp[:]
 	sortedEps = append(sortedEps, ep)
 	sort.Slice(sortedEps, func(i int, j int) bool {
